@@ -420,7 +420,7 @@ func concTypes() []concType {
 	}
 	return []concType{
 		{name: "stack", f: "stack", big: fill("stack", "news", "push"),
-			inits: [][]tt.Op{{fop("stack", "news")}, {fop("stack", "news"), fop("stack", "push", 1), fop("stack", "push", 2)}},
+			inits: [][]tt.Op{{fop("stack", "news")}, {fop("stack", "news"), fop("stack", "push", 2)}, {fop("stack", "news"), fop("stack", "push", 1), fop("stack", "push", 2)}},
 			ops: func(th, i int) []tt.Op {
 				return []tt.Op{fop("stack", "push", 1), fop("stack", "push", 3), fop("stack", "pop"), fop("stack", "peek"), fop("stack", "size"), fop("stack", "search", 1)}
 			},
@@ -432,7 +432,7 @@ func concTypes() []concType {
 			},
 			post: []tt.Op{fop("stack", "size"), fop("stack", "peek"), fop("stack", "search", 1), fop("stack", "search", 4)}},
 		{name: "queue", f: "queue", big: fill("queue", "newq", "enq"),
-			inits: [][]tt.Op{{fop("queue", "newq")}, {fop("queue", "newq"), fop("queue", "enq", 1), fop("queue", "enq", 2)}},
+			inits: [][]tt.Op{{fop("queue", "newq")}, {fop("queue", "newq"), fop("queue", "enq", 2)}, {fop("queue", "newq"), fop("queue", "enq", 1), fop("queue", "enq", 2)}},
 			ops: func(th, i int) []tt.Op {
 				return []tt.Op{fop("queue", "enq", 1), fop("queue", "enq", 3), fop("queue", "deq"), fop("queue", "peek"), fop("queue", "size"), fop("queue", "search", 1), fop("queue", "clear")}
 			},
